@@ -129,7 +129,9 @@ func vaccessors(args []string) error {
 		okI, okU := true, true
 		wantI := make([]int64, k)
 		wantU := make([]uint64, k)
+		elemOK := make([][2]bool, k)
 		for j, v := range vals {
+			elemOK[j] = [2]bool{true, true}
 			wantF[j], _ = v.r.Float64() // nearest even from the exact value
 			if v.kind == 'd' {
 				// the tape holds the float64 (correctly rounded, C03); conversions start from it
@@ -141,12 +143,14 @@ func vaccessors(args []string) error {
 					wantI[j] = ti.Int64()
 				} else {
 					okI = false
+					elemOK[j][0] = false
 				}
 				// a negative value (also -0.5, which would truncate to 0) does not lie in the unsigned range (Lookup.tla)
 				if fl.Sign() >= 0 && t.Cmp(two64) < 0 {
 					wantU[j] = ti.Uint64()
 				} else {
 					okU = false
+					elemOK[j][1] = false
 				}
 			} else {
 				bi, _ := v.r.Int(nil)
@@ -154,11 +158,13 @@ func vaccessors(args []string) error {
 					wantI[j] = bi.Int64()
 				} else {
 					okI = false
+					elemOK[j][0] = false
 				}
 				if bi.Sign() >= 0 && bi.IsUint64() {
 					wantU[j] = bi.Uint64()
 				} else {
 					okU = false
+					elemOK[j][1] = false
 				}
 			}
 		}
@@ -198,6 +204,22 @@ func vaccessors(args []string) error {
 				f, err := it.Float()
 				if j < k && (err != nil || math.Float64bits(f) != math.Float64bits(wantF[j])) {
 					bad("Iter.Float", fmt.Sprintf("element %d = %v", j, wantF[j]), fmt.Sprintf("%v err=%v", f, err))
+				}
+				if j < k {
+					// the scalar accessors follow the same range rule element by element
+					iv, ierr := it.Int()
+					uv, uerr := it.Uint()
+					ei, eu := elemOK[j][0], elemOK[j][1]
+					if ei && (ierr != nil || iv != wantI[j]) {
+						bad("Iter.Int", fmt.Sprintf("element %d = %d", j, wantI[j]), fmt.Sprintf("%d err=%v", iv, ierr))
+					} else if !ei && ierr == nil {
+						bad("Iter.Int", fmt.Sprintf("element %d (%s): an error, outside int64", j, lits[j]), fmt.Sprint(iv))
+					}
+					if eu && (uerr != nil || uv != wantU[j]) {
+						bad("Iter.Uint", fmt.Sprintf("element %d = %d", j, wantU[j]), fmt.Sprintf("%d err=%v", uv, uerr))
+					} else if !eu && uerr == nil {
+						bad("Iter.Uint", fmt.Sprintf("element %d (%s): an error, outside uint64", j, lits[j]), fmt.Sprint(uv))
+					}
 				}
 				j++
 			})
